@@ -30,10 +30,14 @@ type propCfg struct {
 	Bounded    []string `json:"bounded_standins"`
 	LevelNote  string   `json:"level_note"`
 	ExtraFuncs []string `json:"extra_funcs"` // contracts verified for this property although tagged otherwise
+	BuildDeps  []string `json:"build_deps"`  // dependency packages whose small functions may be inlined (bodies built)
 }
 
 type config struct {
 	Properties map[string]*propCfg `json:"properties"`
+	// dependency packages whose small functions may be inlined (bodies built);
+	// global, so that an obligation is the same in every property run
+	BuildDeps []string `json:"build_deps"`
 }
 
 type knownFinding struct {
@@ -68,6 +72,7 @@ func main() {
 		os.Exit(2)
 	}
 	defer smt.Cleanup()
+	loadSkip()
 	switch os.Args[1] {
 	case "check":
 		os.Exit(cmdCheck(os.Args[2:]))
@@ -75,6 +80,8 @@ func main() {
 		os.Exit(cmdBaseline(os.Args[2:]))
 	case "dump":
 		os.Exit(cmdDump(os.Args[2:]))
+	case "modset":
+		os.Exit(cmdModset(os.Args[2:]))
 	default:
 		fmt.Fprintln(os.Stderr, "unknown command", os.Args[1])
 		os.Exit(2)
@@ -100,6 +107,27 @@ func loadBaseline() map[string][]string {
 		json.Unmarshal(data, &m)
 	}
 	return m
+}
+
+func loadSkip() {
+	var l []string
+	data, err := os.ReadFile(filepath.Join(verifDir, "unproved_clauses.json"))
+	if err == nil {
+		json.Unmarshal(data, &l)
+	}
+	for _, c := range l {
+		vc.SkipClauses[c] = true
+	}
+}
+
+func saveSkip() error {
+	var l []string
+	for c := range vc.SkipClauses {
+		l = append(l, c)
+	}
+	sort.Strings(l)
+	data, _ := json.MarshalIndent(l, "", " ")
+	return os.WriteFile(filepath.Join(verifDir, "unproved_clauses.json"), append(data, '\n'), 0o644)
 }
 
 func loadKnown() []knownFinding {
@@ -169,6 +197,9 @@ func generate(cfg *config, prop string) (*genOutput, error) {
 	out.loadS = time.Since(t0).Seconds()
 	t1 := time.Now()
 	u := vc.NewUniverse()
+	for _, d := range append(append([]string{}, cfg.BuildDeps...), pc.BuildDeps...) {
+		prog.BuildPkg(d)
+	}
 	prog.ExpandAutoRules(u)
 	specText, axioms, err := vc.SpecPrelude(prog, u)
 	if err != nil {
@@ -275,6 +306,12 @@ func solveAll(g *genOutput, obls []*vc.Obligation, timeout time.Duration) []oblR
 					continue
 				}
 				rev := g.revealText(o)
+				if o.Kind == "lemma" {
+					// a lemma must not assume itself (nor later lemmas)
+					r := smt.Solve(dropLemmas(g.prelude, o.Label)+rev+o.Script, timeout)
+					res[i] = oblResult{o, r}
+					continue
+				}
 				to := timeout
 				if (o.Kind == "safety" || o.Kind == "pre") && to > 6*time.Second {
 					to = 6 * time.Second
@@ -305,6 +342,7 @@ func cmdDump(args []string) int {
 	fs := flag.NewFlagSet("dump", flag.ExitOnError)
 	prop := fs.String("property", "", "property id")
 	obl := fs.String("obl", "", "obligation name (substring)")
+	relaxed := fs.Bool("relaxed", false, "print the quantifier-free relaxation")
 	fs.Parse(args)
 	cfg, err := loadConfig()
 	if err != nil {
@@ -322,6 +360,8 @@ func cmdDump(args []string) int {
 	for _, o := range g.obls {
 		if *obl == "" {
 			fmt.Println(o.Name)
+		} else if strings.Contains(o.Name, *obl) && *relaxed {
+			fmt.Printf("; ---- %s (relaxed)\n%s%s(check-sat)\n(get-model)\n", o.Name, g.relaxed, o.Relaxed)
 		} else if strings.Contains(o.Name, *obl) {
 			fmt.Printf("; ---- %s\n%s%s%s(check-sat)\n(get-model)\n", o.Name, g.prelude, g.revealText(o), o.Script)
 		}
@@ -349,33 +389,49 @@ func cmdBaseline(args []string) int {
 	}
 	sort.Strings(props)
 	for _, p := range props {
-		g, err := generate(cfg, p)
-		if err != nil {
-			fmt.Fprintln(os.Stderr, "ERROR", p, err)
-			return 2
-		}
-		for k, e := range g.genErrs {
-			fmt.Printf("GEN-ERROR %s: %s\n", k, e)
-		}
-		for _, k := range g.unbound {
-			fmt.Printf("UNBOUND %s\n", k)
-		}
-		res := solveAll(g, g.obls, 20*time.Second)
-		var names []string
-		for _, r := range res {
-			ok := (!r.O.Cover && r.R.Status == "unsat") || (r.O.Cover && r.R.Status != "unsat")
-			tag := "  "
-			if ok && r.R.Time <= *maxT {
-				names = append(names, r.O.Name)
-				tag = "ok"
+		for round := 1; ; round++ {
+			g, err := generate(cfg, p)
+			if err != nil {
+				fmt.Fprintln(os.Stderr, "ERROR", p, err)
+				return 2
 			}
-			fmt.Printf("%s %-8s %6.2fs %-7s %s\n", tag, r.R.Status, r.R.Time, r.R.Solver, r.O.Name)
+			for k, e := range g.genErrs {
+				fmt.Printf("GEN-ERROR %s: %s\n", k, e)
+			}
+			for _, k := range g.unbound {
+				fmt.Printf("UNBOUND %s\n", k)
+			}
+			res := solveAll(g, g.obls, 20*time.Second)
+			var names []string
+			grew := false
+			for _, r := range res {
+				ok := (!r.O.Cover && r.R.Status == "unsat") || (r.O.Cover && r.R.Status != "unsat")
+				tag := "  "
+				if ok && r.R.Time <= *maxT {
+					names = append(names, r.O.Name)
+					tag = "ok"
+				} else if r.O.Kind == "post" && !vc.SkipClauses[r.O.Name] {
+					// an unproved postcondition must not be assumed by callers:
+					// exclude it and verify again (greatest fixpoint)
+					vc.SkipClauses[r.O.Name] = true
+					grew = true
+				}
+				fmt.Printf("%s %-8s %6.2fs %-7s %s\n", tag, r.R.Status, r.R.Time, r.R.Solver, r.O.Name)
+			}
+			sort.Strings(names)
+			base[p] = names
+			fmt.Printf("%s: round %d: %d obligations generated, %d admitted to baseline\n", p, round, len(res), len(names))
+			if !grew || round >= 6 {
+				break
+			}
+			fmt.Printf("%s: unproved postconditions found; verifying again without assuming them\n", p)
 		}
-		sort.Strings(names)
-		base[p] = names
-		fmt.Printf("%s: %d obligations generated, %d admitted to baseline\n", p, len(res), len(names))
 	}
 	if *write {
+		if err := saveSkip(); err != nil {
+			fmt.Fprintln(os.Stderr, "ERROR", err)
+			return 2
+		}
 		data, _ := json.MarshalIndent(base, "", " ")
 		if err := os.WriteFile(filepath.Join(verifDir, "obligations.baseline.json"), append(data, '\n'), 0o644); err != nil {
 			fmt.Fprintln(os.Stderr, "ERROR", err)
@@ -732,3 +788,60 @@ func writeEvidence(prop, tier string, seed int, pc *propCfg, baseline []string, 
 }
 
 var _ = spec.ParseExpr
+
+// dropLemmas removes the assertion of lemma `label` and of every lemma after
+// it from the prelude (a lemma may use only earlier lemmas).
+func dropLemmas(prelude, label string) string {
+	var b strings.Builder
+	drop := false
+	for _, line := range strings.Split(prelude, "\n") {
+		if strings.HasSuffix(line, "; lemma "+label) {
+			drop = true
+		}
+		if drop && strings.Contains(line, ") ; lemma ") {
+			continue
+		}
+		b.WriteString(line + "\n")
+	}
+	return b.String()
+}
+
+func cmdModset(args []string) int {
+	fs := flag.NewFlagSet("modset", flag.ExitOnError)
+	prop := fs.String("property", "", "property id (selects the packages)")
+	fn := fs.String("func", "", "substring of the function key")
+	fs.Parse(args)
+	cfg, err := loadConfig()
+	if err != nil {
+		fmt.Fprintln(os.Stderr, "ERROR", err)
+		return 2
+	}
+	pc := cfg.Properties[*prop]
+	prog, err := vc.Load(repoDir, pc.Packages, filepath.Join(verifDir, "contracts/external"))
+	if err != nil {
+		fmt.Fprintln(os.Stderr, "ERROR", err)
+		return 2
+	}
+	u := vc.NewUniverse()
+	for _, d := range append(append([]string{}, cfg.BuildDeps...), pc.BuildDeps...) {
+		prog.BuildPkg(d)
+	}
+	prog.ExpandAutoRules(u)
+	for k, c := range prog.Specs.Contracts {
+		if !strings.Contains(k, *fn) {
+			continue
+		}
+		f := prog.LookupFunc(c)
+		if f == nil || len(f.Blocks) == 0 {
+			continue
+		}
+		m, all := prog.ModSet(u, f)
+		var ks []string
+		for x := range m {
+			ks = append(ks, x)
+		}
+		sort.Strings(ks)
+		fmt.Printf("%s all=%v\n  %s\n", k, all, strings.Join(ks, "\n  "))
+	}
+	return 0
+}
